@@ -67,6 +67,15 @@ theorem halfClose_released (acts : List Act) (s : St) (h : run .halfClose init a
     enabledInternal .halfClose s ≠ [] := by
   exact released_enabled s (inv_run acts s h) ha hb hr
 
+/-- T3: in `connection.Handler` the release of the bridge's websocket (`defer wsConn.Close()`) is
+    registered before the TCP server is dialled, so the early return on a failed dial releases
+    it too (the websocket is hijacked: net/http will not close it); the TCP side's release is
+    registered right after the dial.  Likewise in the frontend for the client connection. -/
+theorem release_registered_before_dial :
+    Skel.precedes (.call "wsConn.Close") (.call "net.Dial") skel_connection_Handler = true ∧
+    Skel.precedes (.call "net.Dial") (.call "backendConn.Close") skel_connection_Handler = true ∧
+    Skel.precedes (.call "conn.Close") (.call "connection.DialWebsocket") skel_frontend_main = true := by decide
+
 -- non-vacuity: a half-close run delivers the data, then the end-of-stream
 example : (run .halfClose init [.aSend, .aClose, .f1Copy, .f1End, .h1Copy, .h1End, .bRecv, .bSeeEOF]).map goalB = some true := by decide
 
